@@ -1133,12 +1133,9 @@ pub extern "C" fn send_time_limit(fd: c_int) -> u64 {
                 &raw mut len,
             ) == -1
             {
-                let error = std::io::Error::last_os_error();
-                if Some(libc::ENOTSOCK) == error.raw_os_error() {
-                    // not a socket
-                    return u64::MAX;
-                }
-                panic!("getsockopt failed: {error}");
+                // not a socket, or not a valid descriptor at all: there is no limit to apply,
+                // the system call itself reports the error to the caller
+                return u64::MAX;
             }
             let time_limit = get_time_limit(&tv);
             // another thread may have cached the same value meanwhile
@@ -1163,12 +1160,9 @@ pub extern "C" fn recv_time_limit(fd: c_int) -> u64 {
                 &raw mut len,
             ) == -1
             {
-                let error = std::io::Error::last_os_error();
-                if Some(libc::ENOTSOCK) == error.raw_os_error() {
-                    // not a socket
-                    return u64::MAX;
-                }
-                panic!("getsockopt failed: {error}");
+                // not a socket, or not a valid descriptor at all: there is no limit to apply,
+                // the system call itself reports the error to the caller
+                return u64::MAX;
             }
             let time_limit = get_time_limit(&tv);
             // another thread may have cached the same value meanwhile
